@@ -114,6 +114,10 @@ class Version(PEP440Version, VersionRangeConstraint):
         if other.allows(self):
             return other
 
+        if isinstance(other, Version) and self.allows(other):
+            # weak equality: `1.0` admits `1.0+local`
+            return self
+
         if isinstance(other, VersionRangeConstraint):
             if self.allows(other.min):
                 return VersionRange(
